@@ -1579,5 +1579,9 @@ DFANPshutdown(void)
 
     free(Lastfile);
     Lastfile = NULL;
+
+    /* Allow the interface to be initialized again */
+    library_terminate = FALSE;
+
     return SUCCEED;
 } /* end DFANPshutdown() */
